@@ -16,6 +16,7 @@ import (
 	"fmt"
 	"io"
 	"log"
+	"net/http"
 	"net/url"
 	"sort"
 	"time"
@@ -220,78 +221,105 @@ var readerMakers = map[string][]func(c *core.Ctx) *inst{
 	"C15": {func(c *core.Ctx) *inst { return miDecodeInst(c, "rmice") }},
 }
 
-// bsigVerifyInst: one signed bundle file; each call reads it, builds a Verifier
-// and verifies every exchange (C06).
-func bsigVerifyInst(c *core.Ctx, label string) *inst {
-	leaf := fixturesLeaf(c, label)
-	host := leaf.Hosts[0]
-	if host[0] == '*' {
-		host = "sub" + host[1:]
-	}
+// bsigVerifyInst: one signed bundle file (one or two signers); each call reads it,
+// builds a Verifier and verifies every exchange (C06). With sharedVerifier the
+// bundle is read and the Verifier built once, and the calls share both.
+func bsigVerifyInst(c *core.Ctx, label string, sharedVerifier bool) *inst {
 	ver := bversion.Version(c.PickStr(label+".version", "b1", "b2"))
 	b := &bundle.Bundle{Version: ver}
-	n := c.Int(label+".nex", 1, 3)
-	for i := 0; i < n; i++ {
-		u, _ := url.Parse(fmt.Sprintf("https://%s/r%d", host, i))
-		if i == n-1 && n > 1 && c.Bool(label+".uncovered") {
-			u, _ = url.Parse(fmt.Sprintf("https://uncovered.invalid/r%d", i))
+	nsigners := c.Int(label+".signers", 1, 2)
+	if sharedVerifier {
+		nsigners = 2
+	}
+	perm := c.Perm(label+".leaves", len(fixtures.Leaves))
+	var leaves []*fixtures.Leaf
+	used := map[string]bool{}
+	for _, pi := range perm {
+		l := fixtures.Leaves[pi]
+		h := l.Hosts[0]
+		if h[0] == '*' {
+			h = "sub" + h[1:]
 		}
-		r := gen.DrawResp(c, label+".resp", i)
-		r.DirectMap = false
-		if len(r.Body) > 1500 {
-			r.Body = r.Body[:1500]
+		clash := false
+		for _, o := range leaves { // no host covered by two signers
+			for _, oh := range o.Hosts {
+				for _, lh := range l.Hosts {
+					if oh == lh {
+						clash = true
+					}
+				}
+			}
 		}
-		b.Exchanges = append(b.Exchanges, &bundle.Exchange{Request: bundle.Request{URL: u}, Response: bundle.Response{Status: r.Status, Header: r.Header(), Body: r.Body}})
+		if !clash && !used[h] && len(leaves) < nsigners {
+			leaves = append(leaves, l)
+			used[h] = true
+		}
+	}
+	k := 0
+	for _, leaf := range leaves {
+		host := leaf.Hosts[0]
+		if host[0] == '*' {
+			host = "sub" + host[1:]
+		}
+		for i, n := 0, c.Int(label+".nex", 1, 3); i < n; i++ {
+			u, _ := url.Parse(fmt.Sprintf("https://%s/r%d", host, k))
+			r := gen.DrawResp(c, label+".resp", k)
+			r.DirectMap = false
+			if len(r.Body) > 1500 {
+				r.Body = r.Body[:1500]
+			}
+			b.Exchanges = append(b.Exchanges, &bundle.Exchange{Request: bundle.Request{URL: u}, Response: bundle.Response{Status: r.Status, Header: r.Header(), Body: r.Body}})
+			k++
+		}
+	}
+	if c.Bool(label + ".uncovered") {
+		u, _ := url.Parse(fmt.Sprintf("https://uncovered.invalid/r%d", k))
+		b.Exchanges = append(b.Exchanges, &bundle.Exchange{Request: bundle.Request{URL: u}, Response: bundle.Response{Status: 200, Header: http.Header{"Content-Type": {"text/plain"}}, Body: []byte("uncovered")}})
 	}
 	b.PrimaryURL = b.Exchanges[0].Request.URL
 	date := c.I64(label+".date", 1600000000, 1700000000)
-	chain, err := certurl.NewCertChain(certsOf(leaf), []byte("ocsp"), nil)
-	if err != nil {
-		panic(err)
-	}
-	vu, _ := url.Parse("https://" + host + "/validity")
-	signer, err := signature.NewSigner(ver, chain, leaf.Key, vu, time.Unix(date, 0), time.Hour)
-	if err != nil {
-		panic(err)
-	}
-	signer.Algorithm, _ = verifhook.SigningAlgorithmForPrivateKey(leaf.Key, fixtures.ConstReader{B: byte(c.Int(label+".entropy", 0, 255))})
 	rs := c.PickInt(label+".rs", 16, 100, 4096)
-	for _, e := range b.Exchanges {
-		if !signer.CanSignForURL(e.Request.URL) {
-			continue
+	for _, leaf := range leaves {
+		host := leaf.Hosts[0]
+		if host[0] == '*' {
+			host = "sub" + host[1:]
 		}
-		pih, err := e.AddPayloadIntegrity(ver, rs)
+		chain, err := certurl.NewCertChain(certsOf(leaf), []byte("ocsp"), nil)
 		if err != nil {
 			panic(err)
 		}
-		if err := signer.AddExchange(e, pih); err != nil {
+		vu, _ := url.Parse("https://" + host + "/validity")
+		signer, err := signature.NewSigner(ver, chain, leaf.Key, vu, time.Unix(date, 0), time.Hour)
+		if err != nil {
 			panic(err)
 		}
-	}
-	if b.Signatures, err = signer.UpdateSignatures(nil); err != nil {
-		panic(err)
+		signer.Algorithm, _ = verifhook.SigningAlgorithmForPrivateKey(leaf.Key, fixtures.ConstReader{B: byte(c.Int(label+".entropy", 0, 255))})
+		for _, e := range b.Exchanges {
+			if !signer.CanSignForURL(e.Request.URL) {
+				continue
+			}
+			pih, err := e.AddPayloadIntegrity(ver, rs)
+			if err != nil {
+				panic(err)
+			}
+			if err := signer.AddExchange(e, pih); err != nil {
+				panic(err)
+			}
+		}
+		if b.Signatures, err = signer.UpdateSignatures(b.Signatures); err != nil {
+			panic(err)
+		}
 	}
 	var buf bytes.Buffer
 	if _, err := b.WriteTo(&buf); err != nil {
 		panic(err)
 	}
 	file := buf.Bytes()
-	if c.Chance(label+".damaged", 1, 4) {
+	if !sharedVerifier && c.Chance(label+".damaged", 1, 4) {
 		file = c.CorruptBlob(label+".blob", file, nil)
 	}
 	tm := time.Unix(date+c.I64(label+".t", 0, 3600), 0)
-	in := &inst{name: label + ":bundle.Read+NewVerifier+VerifyExchange", props: []string{"C06"}}
-	in.run = func(w io.Writer) error {
-		rb, err := bundle.Read(bytes.NewReader(file))
-		if err != nil || rb.Signatures == nil {
-			_, werr := io.WriteString(w, "unreadable-or-unsigned")
-			return werr
-		}
-		v, err := signature.NewVerifier(rb.Signatures, tm, rb.Version)
-		if err != nil {
-			_, werr := io.WriteString(w, "verifier-refused")
-			return werr
-		}
+	dump := func(w io.Writer, rb *bundle.Bundle, v *signature.Verifier) error {
 		var o bytes.Buffer
 		for _, e := range rb.Exchanges {
 			r, err := v.VerifyExchange(e)
@@ -307,10 +335,47 @@ func bsigVerifyInst(c *core.Ctx, label string) *inst {
 		_, werr := w.Write(o.Bytes())
 		return werr
 	}
+	in := &inst{name: label + ":bundle.Read+NewVerifier+VerifyExchange", props: []string{"C06"}}
 	in.sharedHash = func() uint64 { return fnvOf(file[:cap(file)]) }
+	if sharedVerifier {
+		rb, err := bundle.Read(bytes.NewReader(file))
+		if err != nil {
+			panic(err)
+		}
+		v, err := signature.NewVerifier(rb.Signatures, tm, rb.Version)
+		if err != nil {
+			panic(err)
+		}
+		in.name = label + ":VerifyExchange(one Verifier shared by all callers)"
+		in.run = func(w io.Writer) error { return dump(w, rb, v) }
+		return in
+	}
+	in.run = func(w io.Writer) error {
+		rb, err := bundle.Read(bytes.NewReader(file))
+		if err != nil || rb.Signatures == nil {
+			_, werr := io.WriteString(w, "unreadable-or-unsigned")
+			return werr
+		}
+		v, err := signature.NewVerifier(rb.Signatures, tm, rb.Version)
+		if err != nil {
+			_, werr := io.WriteString(w, "verifier-refused")
+			return werr
+		}
+		return dump(w, rb, v)
+	}
 	return in
 }
 
 func init() {
-	readerMakers["C06"] = []func(c *core.Ctx) *inst{func(c *core.Ctx) *inst { return bsigVerifyInst(c, "rbsig") }}
+	c06 := []func(c *core.Ctx) *inst{
+		func(c *core.Ctx) *inst { return bsigVerifyInst(c, "rbsig", false) },
+		func(c *core.Ctx) *inst { return bsigVerifyInst(c, "rbsigv", true) },
+	}
+	readerMakers["C06"] = c06
+	// C10 (no panic, bounded): every reader instance
+	var all []func(c *core.Ctx) *inst
+	for _, p := range []string{"C01", "C05", "C15", "C17"} {
+		all = append(all, readerMakers[p]...)
+	}
+	readerMakers["C10"] = append(all, c06...)
 }
